@@ -53,4 +53,22 @@ PROPS = {
         "level_text": "Bounded symbolic verification: sizes enumerated, diagonal contents universally quantified; exact-or-refuses is decided on every path of the elimination.",
         "level_note": "Exact-real semantics. Trusted: rustc monomorphisation, symcore, retype.py (f64*T only), z3.",
     },
+    "C06": {
+        "explanation": "Sparse::<Sym> (generic code of the current tree): structure is enumerated, values are symbols. For every shape in the bound, EVERY duplicate-free pattern and (for up to 4 entries) EVERY triplet order: from_triplets must yield a well-formed CSC structure (col_start from 0, non-decreasing, ending at nonzero == val.len() == row_index.len(); row indices < rows; no position stored twice) and get / to_triplets / to_dense / col_index must all describe the reference map. Histories by one inductive step: from an arbitrary valid representation (random within-column order through from_vecs) each of insert-new (every absent cell), overwrite (every present cell), scale, transpose (also twice, and operand untouched) and insert;insert must give the reference result with all views agreeing and the invariants preserved.",
+        "functions": ["Sparse::{from_triplets,from_vecs,col_index,get,col_start_from_index,insert,scale,transpose,to_triplets,to_dense,new_nonzero}"],
+        "bounds": {"quick": "all shapes 0..3 x 0..3, all 2^(r*c) patterns, all orders for <= 4 entries (6 orders above), plus 4 seeded instances of 12 random patterns at 8x8 and 5x7 (declared subset)", "thorough": "additionally all patterns at 4x4, 4x3, 3x4, 1x4, 4x1, 2x4, 4x2, 0x4, 4x0 and 24 seeded instances up to 8x8"},
+        "outside": "shapes above 4x4 other than the seeded subset; duplicate entries (excluded by the property); (row, col) out of range (C20 / Kani twin)",
+        "assumptions": COMMON_ASSUME[3:] + ["values are opaque symbols: data movement is checked by term identity, scale by z3/term identity"],
+        "level_text": "Exhaustive structural enumeration inside the bound with symbolic values: every view of every constructed/modified matrix is compared with the reference on the term DAG; one step from an arbitrary valid representation covers operation histories by induction.",
+        "level_note": "Structure is concrete in each case (the solver is only needed where values are combined); shapes above the bound are a seeded, declared subset.",
+    },
+    "C07": {
+        "explanation": "Sparse::<Sym>::multiply / transpose_multiply / transpose / scale for every shape and every sparsity pattern in the bound (arbitrary within-column order), with symbolic entries and symbolic vectors: A*x and A^T*y equal the dense products component-wise, transpose().multiply == transpose_multiply, transpose().transpose_multiply == multiply, <y, A x> = <A^T y, x>, and (wA)x = w(Ax), (wA)^T y = w(A^T y) - bilinear identities decided by term identity or z3.",
+        "functions": ["Sparse::{multiply,transpose_multiply,transpose,scale,from_vecs}", "Vector::dot"],
+        "bounds": {"quick": "all shapes 0..3 x 0..3 with all 2^(r*c) patterns; 4 seeded instances (6 patterns each) at 10x10 and 6x9", "thorough": "additionally all patterns at 4x4, 4x3, 3x4, 2x4, 4x2, 1x4, 4x1 (adjoint/scale identities on a 1/16 slice of the 4x4-class patterns) and 24 seeded instances up to 10x10"},
+        "outside": "shapes above 4x4 other than the seeded subset; f64 rounding (the identities are exact over the reals)",
+        "assumptions": COMMON_ASSUME,
+        "level_text": "Bounded symbolic verification: patterns enumerated exhaustively inside the bound, entries and vectors universally quantified; every product component is an SMT/term-identity obligation.",
+        "level_note": "Exact-real semantics. Trusted: rustc monomorphisation, symcore, z3.",
+    },
 }
